@@ -89,7 +89,7 @@ func handshakeImage(p *Prog, r *Report, R string) {
 	wr := hs.Ev("call", "binary.Write")
 	rd := hs.Ev("call", "binary.Read")
 	r.Check(len(wr) == 1 && wr[0].Args[0] == "recv.c" && wr[0].Args[1] == "encoding/binary.BigEndian" && wr[0].Args[2] == H, R, "handshake/write-big-endian", wr.Pos(p), "header written big-endian", "the header is not written with binary.BigEndian: "+argsOf(wr))
-	r.Check(len(rd) == 1 && rd[0].Args[0] == "recv.c" && rd[0].Args[1] == "encoding/binary.BigEndian" && rd[0].Args[2] == H, R, "handshake/read-big-endian", rd.Pos(p), "peer header read big-endian into the same struct", "the peer header is not read with binary.BigEndian into the header struct: "+argsOf(rd))
+	r.Check(len(rd) == 1 && strings.HasPrefix(rd[0].Args[0], "recv.") && rd[0].Args[1] == "encoding/binary.BigEndian" && rd[0].Args[2] == H, R, "handshake/read-big-endian", rd.Pos(p), "peer header read big-endian into the same struct", "the peer header is not read with binary.BigEndian into the header struct: "+argsOf(rd))
 	r.Check(len(wr) == 1 && len(rd) == 1 && rd.DominatedBy(wr), R, "handshake/send-then-receive", rd.Pos(p), "own header is sent before waiting for the peer's", "handshake waits for the peer before sending its own header (two such peers deadlock)")
 }
 
@@ -113,7 +113,7 @@ func handshakeValidation(p *Prog, r *Report, R string) {
 	} else {
 		H := headerLocal(hs.fn)
 		dom := map[string][]int64{H + ".Zero": {0, 1}, H + ".S": {83, 84}, H + ".P": {80, 81}, H + ".Version": {0, 1}, H + ".Reserved": {0, 1}, H + ".Proto": {1, 2}, "recv.proto.Peer": {1, 2}}
-		res := ComparePred(succ[0].In.Block(), dom, []string{"binary.Write(recv.c,encoding/binary.BigEndian," + H + ") == nil", "binary.Read(recv.c,encoding/binary.BigEndian," + H + ") == nil"}, func(env map[string]int64) bool {
+		res := ComparePred(succ[0].In.Block(), dom, []string{"binary.Write(recv.c,encoding/binary.BigEndian," + H + ") == nil", "binary.Read(" + hsReader(hs.Ev("call", "binary.Read")) + ",encoding/binary.BigEndian," + H + ") == nil"}, func(env map[string]int64) bool {
 			return env[H+".Zero"] == 0 && env[H+".S"] == 83 && env[H+".P"] == 80 && env[H+".Version"] == 0 && env[H+".Reserved"] == 0 && env[H+".Proto"] == env["recv.proto.Peer"]
 		})
 		switch {
@@ -323,6 +323,58 @@ func framingRules(p *Prog, r *Report, R string) {
 		}
 		r.Check(len(okRet) == 1 && okRet.DominatedBy(rf), R, f.Name+"/returns-that-message", okRet.Pos(p), "returns the message that was filled", "Recv does not return the message it filled")
 	}
+	streamSingleReader(p, r, R)
+}
+
+// hsReader: the source the handshake reads the peer header from (whatever it is; that all
+// stream reads use the same one is streamSingleReader's obligation).
+func hsReader(rd Sel) string {
+	if len(rd) == 1 {
+		return rd[0].Args[0]
+	}
+	return "recv.c"
+}
+
+// streamSingleReader: everything that reads from a stream connection — the handshake and the
+// Recv of conn and of connipc — reads from the same source.  A buffering reader put in front
+// of the connection for some of them keeps bytes the others never see: frames that arrive in
+// the same segment as the peer's header are lost.
+func streamSingleReader(p *Prog, r *Report, R string) {
+	q := NewQ(p, r)
+	srcs := map[string][]string{}
+	n := 0
+	for _, a := range [][2]string{{"conn", "Recv"}, {"connipc", "Recv"}, {"conn", "handshake"}} {
+		fn := p.Func("transport", a[0], a[1])
+		if fn == nil {
+			continue
+		}
+		f := &F{q: q, fn: fn, Name: p.FuncName(fn), evs: p.Events(fn)}
+		for _, e := range f.All() {
+			if e.Kind != "call" {
+				continue
+			}
+			var src string
+			switch {
+			case e.What == "binary.Read", e.What == "io.ReadFull", e.What == "io.ReadAtLeast":
+				src = e.Args[0]
+			case strings.HasSuffix(e.What, "Conn.Read"), strings.HasSuffix(e.What, ".Read") && strings.Contains(e.What, "bufio"):
+				src = e.Args[0]
+			default:
+				continue
+			}
+			n++
+			src = strings.Replace(src, "recv.conn.", "recv.", 1) // connipc embeds conn: the same field
+			srcs[src] = append(srcs[src], p.InstrPos(e.In))
+		}
+	}
+	var names []string
+	for k, v := range srcs {
+		names = append(names, k+" ("+strings.Join(v, ", ")+")")
+	}
+	sort.Strings(names)
+	r.Check(len(srcs) == 1, R, "stream/single-reader", "-", "handshake and Recv of conn/connipc all read from "+strings.Join(names, ""), "the stream connection is read through different readers: "+strings.Join(names, "; ")+" — a buffering reader in front of the connection holds bytes that the direct reads never see (frames arriving together with the peer's header are lost)")
+	r.Count("wire.stream_reads", n)
+	r.Floor(R, "wire.stream_reads", 5)
 }
 
 func minInt(a, b int) int {
